@@ -75,6 +75,7 @@ func init() {
 		ID: "C18",
 		Harnesses: []HarnessSpec{
 			{Dir: "txsort", Name: "ZZ_C18_sort", Variant: "in<=3,hash bytes {0,1,30,31} symbolic", Reach: []string{"end"}, Tweak: params(false, "maxin", 3, "maxout", 0, "sparsehash", 1)},
+			{Dir: "txsort", Name: "ZZ_C18_sort", Variant: "in=4,hash bytes {0,1,30,31} symbolic", Reach: []string{"end"}, Tweak: params(false, "minin", 4, "maxin", 4, "maxout", 0, "sparsehash", 1)},
 			{Dir: "txsort", Name: "ZZ_C18_sort", Variant: "in<=2,out<=2,script<=1", Reach: []string{"end"}, Tweak: params(false, "maxin", 2, "maxout", 2, "maxscript", 1)},
 			{Dir: "txsort", Name: "ZZ_C18_sort", Variant: "in=3", Reach: []string{"end"}, Tweak: params(false, "minin", 3, "maxin", 3, "maxout", 0)},
 			{Dir: "txsort", Name: "ZZ_C18_sort", Variant: "out=3,script<=2", Reach: []string{"end"}, Tweak: params(false, "maxin", 0, "minout", 3, "maxout", 3, "maxscript", 2)},
@@ -445,7 +446,7 @@ func init() {
 	}, []string{"decimal text produced by strconv.FormatFloat", "|f*1e8| >= 2^62"},
 		"all float64 with |x| < 2^62; all integers |a| <= 2.1e15; units -8..12", "same as quick")
 	meta("C18", nil, []string{"transactions larger than the tier bound"},
-		"quick: <=3 inputs whose hashes are symbolic in stored bytes 0,1,30,31 (others equal); <=2 inputs and <=2 outputs (scripts <=1 byte) jointly; 3 inputs; 3 outputs with scripts <=2 bytes; all hashes/indices/amounts symbolic", "thorough: 4 inputs; 4 outputs; 3x3 jointly")
+		"quick: <=4 inputs whose hashes are symbolic in stored bytes 0,1,30,31 (others equal); <=2 inputs and <=2 outputs (scripts <=1 byte) jointly; 3 inputs; 3 outputs with scripts <=2 bytes; all hashes/indices/amounts symbolic", "thorough: 4 inputs; 4 outputs; 3x3 jointly")
 	meta("C19", []string{"coin values in [0,2^50], value-ages in [0,2^56], targets/min-change in [0,2^52] (no int64 overflow)"},
 		[]string{"coin lists longer than the tier bound", "SimpleCoin's own value*confirmations product"},
 		"quick: 0..2 coins, all parameters symbolic (MaxInputs in -1..6); coin-set histories of 3 operations", "thorough: 0..3 coins; histories of 5 operations")
